@@ -126,6 +126,9 @@ func loadRepo(dir string) (*Verifier, error) {
 			for k, g := range c.Guards {
 				v.contracts.Guards[pk.name+"."+k] = g
 			}
+			for k, ci := range c.ChanInvs {
+				v.contracts.ChanInvs[pk.name+"."+k] = ci
+			}
 			v.contracts.Files = append(v.contracts.Files, m)
 		}
 	}
